@@ -32,6 +32,8 @@ func c05ConcurrentClock(r *mon.Run) {
 	defer func() { _ = rep.Repo.Close() }()
 	const workers = 6
 	inversions := 0
+	handedOut := map[uint64]bool{}
+	var highBefore uint64
 	for round := 0; round < rounds; round++ {
 		var wg sync.WaitGroup
 		start := make(chan struct{})
@@ -55,6 +57,26 @@ func c05ConcurrentClock(r *mon.Run) {
 				max = v
 			}
 		}
+		// every Increment hands out a time of its own, above everything handed out before
+		dup := false
+		for _, v := range got {
+			if v == 0 {
+				continue
+			}
+			if handedOut[v] || v <= highBefore {
+				dup = true
+			}
+			handedOut[v] = true
+		}
+		if dup {
+			r.Violation("concurrent-increment:time-handed-out-twice-or-not-above-earlier-ones",
+				fmt.Sprintf("round %d: concurrent Increment calls obtained %v; the highest time handed out in earlier rounds was %d (each call must get a time of its own, above all earlier ones)", round, got, highBefore),
+				map[string]any{"kind": "concurrent-increment", "round": round, "got": got})
+			break
+		}
+		if max > highBefore {
+			highBefore = max
+		}
 		// the order in which the four values came back, as a shape
 		order := fmt.Sprint(rankOf(got))
 		data, _ := os.ReadFile(filepath.Join(rep.Dir, ".git", "git-bug", "clocks", "bugs-edit"))
@@ -68,12 +90,21 @@ func c05ConcurrentClock(r *mon.Run) {
 				map[string]any{"kind": "concurrent-increment", "round": round, "got": got, "file": onDisk})
 			break
 		}
-		if round%50 == 49 {
+		// a fresh handle every 10 rounds: the first use of a clock through a handle is raced by all workers
+		if round%10 == 9 {
 			if err := rep.Reopen(); err != nil {
 				r.Violation("concurrent-increment:reopen-fails", err.Error(), nil)
 				return
 			}
-			clocks, _ := rep.Repo.AllClocks()
+			// (read through a handle of its own: the workers' handle must meet the clock for the first time in the
+			// next round, all of them at once)
+			probe, perr := world.OpenRepo(rep.Dir, rep.KR)
+			if perr != nil {
+				r.Violation("concurrent-increment:reopen-fails", perr.Error(), nil)
+				return
+			}
+			clocks, _ := probe.Repo.AllClocks()
+			_ = probe.Repo.Close()
 			if c, ok := clocks["bugs-edit"]; ok && uint64(c.Time()) < max {
 				r.Violation("concurrent-increment:clock-below-handed-out-value-after-reopen",
 					fmt.Sprintf("clock is %d after re-open, %d had been handed out", c.Time(), max), nil)
